@@ -117,6 +117,10 @@ Step ==
             /\ cfg' = e /\ rep' = NoRep /\ exp' = EmptyExp(e.nchan) /\ expState' = <<>> /\ expExt' = <<>>
             /\ expDrop' = <<>> /\ closed' = NoClosed /\ dirsSeen' = {} /\ hist' = [d \in {} |-> 0]
        [] e.ev = "Req" -> ReqStep(e)
+       [] e.ev = "RmRun" ->     \* the operator removed the directory of an earlier run: its number may be used again
+            /\ dirsSeen' = dirsSeen \ {e.dir}
+            /\ hist' = [d \in (DOMAIN hist) \ {e.dir} |-> hist[d]]
+            /\ UNCHANGED <<cfg, rep, exp, expState, expExt, expDrop, closed>>
        [] e.ev = "FileFinal" ->
             \* every session directory is read again at the end: what a channel stored there must be exactly what was
             \* published while that session was the reported one (a writer that outlives its session is caught here)
